@@ -83,3 +83,16 @@ PROPS["C06"] = store_prop(["Props/C06.v"], ["0", "1", "8", "3", "4"], ["C06"],
 PROPS["C16"] = store_prop(["Props/C16.v"], ["5", "6"], ["C16"],
     "counters and views of the model vs Stats/Len/Range/EstimatedSize of the real Store")
 PROPS["STORE"] = store_prop([], ["0", "1", "2", "3", "4", "5", "6", "7", "8", "9", "10", "11"], ["C01", "C02", "C03", "C04", "C05", "C06", "C16"], "scratch")
+
+PROPS["C08"] = {
+    "props_files": ["Props/C08.v"],
+    "go_tests": ["TestVerifRing"],
+    "level": "proof",
+    "rule": "random interleavings of 2..5 threads on the real Buffer, stepped one atomic operation at a time through hook H2 "
+            "(Add, drain, Free with the batch handed back late in 60% of the cases), followed by quiescence and 17 solo Adds; "
+            "non-trivial = >= 3 steps; distinct = sha1 of the recorded schedule",
+    "trusted_base": [KERNEL, EXTRACT, HARNESS, "hook H2 (yield before every atomic operation of buffer.go, build tag verif)",
+                     "modelled, not verified: sequentially consistent atomics (Go sync/atomic), unsafe.Pointer slots as integers"],
+    "assumptions": ["Go's sync/atomic operations are sequentially consistent"],
+    "explanation": "ring model at single-atomic granularity; the real Buffer is stepped along the same schedules and compared after every step",
+}
